@@ -2,10 +2,14 @@ package c16
 
 import (
 	"fmt"
+	"go/ast"
+	"go/parser"
 	"sort"
 	"strings"
+	"sync"
 
 	"pgregory.net/rapid"
+	"verif/harness/internal/ev"
 )
 
 // The behavioural clause works on generated functions of one fixed signature
@@ -73,6 +77,12 @@ type Strg struct{ V string }
 
 func (s Strg) String() string { return "Strg(" + s.V + ")" }
 
+// ES implements both error and fmt.Stringer.
+type ES struct{ V string }
+
+func (e ES) Error() string  { return "error(" + e.V + ")" }
+func (e ES) String() string { return "stringer(" + e.V + ")" }
+
 // W is an io.Writer and io.StringWriter with a value receiver.
 type W struct{ sb *strings.Builder }
 
@@ -93,9 +103,33 @@ type gen struct {
 	imports map[string]string // path -> local name ("" = default)
 	shadows []string
 	alias   int // 0 plain imports, 1 aliased imports, 2 aliased imports and the real names shadowed by locals
+	// noRightNest: do not generate X op (Y op Z) with a non-associative op
+	// (excluded input class of the recorded finding simplify-parentheses)
+	noRightNest bool
 }
 
-func (g *gen) n(k int) int { return rapid.IntRange(0, k-1).Draw(g.t, "c") }
+// excluded counts an input class that the generator leaves out because of a recorded finding.
+func excluded(class string) { ev.Count("excluded_by_known_finding_"+class, 1) }
+
+// mix is a bijective mixer with mix(0) == 0: rapid's integer generators favour
+// small values; mixing gives (nearly) uniform choices while shrinking still
+// moves every choice towards its first alternative.
+func mix(u uint64) uint64 {
+	u *= 0x9E3779B97F4A7C15
+	u ^= u >> 32
+	u *= 0xD6E8FEB86659FD93
+	u ^= u >> 32
+	return u
+}
+
+func uniform(t *rapid.T, k int, label string) int {
+	if k <= 1 {
+		return 0
+	}
+	return int((mix(rapid.Uint64().Draw(t, label)) >> 8) % uint64(k))
+}
+
+func (g *gen) n(k int) int { return uniform(g.t, k, "c") }
 
 func (g *gen) k() int { g.key++; return g.key }
 
@@ -112,6 +146,18 @@ func (g *gen) q(path string) string {
 	}
 	g.imports[path] = name
 	return name
+}
+
+// guarded marks a hole where the check refuses operands with side effects. Most
+// instances respect that (so that the check fires); one in four does not: on
+// the unchanged tree such an instance yields no diagnostic, and a check that
+// lost its guard is caught.
+func (g *gen) guarded() func() {
+	if g.n(4) == 0 {
+		return func() {}
+	}
+	g.pure++
+	return func() { g.pure-- }
 }
 
 func (g *gen) pick(xs ...string) string { return xs[g.n(len(xs))] }
@@ -135,6 +181,10 @@ func (g *gen) intE(d int) string {
 		return g.intE(d-1) + " - " + g.intAtom()
 	case 5:
 		g.low = true
+		if g.noRightNest {
+			excluded("right_nested_nonassociative_operand")
+			return g.intAtom() + " - " + g.intAtom()
+		}
 		return g.intAtom() + " - (" + g.intE(d-1) + " - " + g.intAtom() + ")"
 	case 6:
 		return g.intAtom() + " * " + g.intAtom()
@@ -252,8 +302,16 @@ func (g *gen) fltE(d int) string {
 		return g.fltE(d-1) + " + " + atom()
 	case 4:
 		g.low = true
+		if g.noRightNest {
+			excluded("right_nested_nonassociative_operand")
+			return atom() + " - 1"
+		}
 		return atom() + " - (" + g.fltE(d-1) + " - 1)"
 	case 5:
+		if g.noRightNest {
+			excluded("right_nested_nonassociative_operand")
+			return atom() + " * 0.1"
+		}
 		return atom() + " * (" + g.fltE(d-1) + " * 0.1)"
 	case 6:
 		g.multi, g.low = true, true
@@ -284,11 +342,22 @@ func (g *gen) bytesE() string {
 	}
 }
 
+// isBinary reports whether the expression text is a binary expression at top level.
+func isBinary(x string) bool {
+	e, err := parser.ParseExpr(x)
+	if err != nil {
+		return false
+	}
+	_, ok := e.(*ast.BinaryExpr)
+	return ok
+}
+
 // shape is one trigger template.
 type shape struct {
 	check    string
 	name     string
 	aliasing bool // the replacement text names a package: try aliased and shadowed imports
+	weight   int  // relative frequency (0 = 1); expression-level rewrites are drawn more often
 	// build returns the result list and the body of the function.
 	build func(g *gen) (results, body string)
 }
@@ -302,18 +371,36 @@ var exemptChecks = map[string]string{
 var shapes = []shape{
 	{check: "S1001", name: "range-copy", build: func(g *gen) (string, string) {
 		extra := g.pick("0", "0", "1")
+		size := "len(xs)+" + extra
+		if includeKnown() && g.n(4) == 0 {
+			size = "2" // recorded finding s1001-destination-shorter-than-source
+		} else if !includeKnown() {
+			excluded("s1001_destination_may_be_shorter")
+		}
 		loop := g.pick(
 			"for i, x := range xs {\n\t\tdst[i] = x\n\t}",
 			"for i := range xs {\n\t\tdst[i] = xs[i]\n\t}",
 			"for i := 0; i < len(xs); i++ {\n\t\tdst[i] = xs[i]\n\t}")
-		return "[]int", fmt.Sprintf("\tdst := make([]int, len(xs)+%s)\n\t%s\n\treturn dst\n", extra, loop)
+		return "[]int", fmt.Sprintf("\tdst := make([]int, %s)\n\t%s\n\treturn dst\n", size, loop)
 	}},
 	{check: "S1001", name: "array-assign", build: func(g *gen) (string, string) {
 		return "[3]int", "\tvar src, dst [3]int\n\tsrc[0], src[1], src[2] = " + g.intE(1) + ", b, len(xs)\n\tfor i, x := range src {\n\t\tdst[i] = x\n\t}\n\treturn dst\n"
 	}},
-	{check: "S1002", name: "bool-cmp", build: func(g *gen) (string, string) {
+	{check: "S1002", weight: 2, name: "bool-cmp", build: func(g *gen) (string, string) {
 		x := g.boolE(2)
-		cmp := g.pick(x+" == true", x+" == false", x+" != true", x+" != false", "true == "+x, "false != "+x)
+		if g.n(8) == 0 {
+			x, g.low = "h == !h", true
+		}
+		px := x
+		if isBinary(x) {
+			px = "(" + x + ")" // "true == a < b" would not type-check
+			if !includeKnown() {
+				// recorded finding s1002-unparenthesised-operand: "a == b == false" is rewritten to "!a == b"
+				excluded("s1002_binary_operand_without_parentheses")
+				x = px
+			}
+		}
+		cmp := g.pick(x+" == true", x+" == false", x+" != true", x+" != false", "true == "+px, "false != "+px)
 		switch g.n(3) {
 		case 0:
 			return "int", "\tif " + cmp + " {\n\t\treturn 1\n\t}\n\treturn 0\n"
@@ -323,7 +410,7 @@ var shapes = []shape{
 			return "bool", "\tr := !(" + cmp + ")\n\treturn r\n"
 		}
 	}},
-	{check: "S1003", name: "strings-index", build: func(g *gen) (string, string) {
+	{check: "S1003", weight: 2, name: "strings-index", build: func(g *gen) (string, string) {
 		pkg := g.q("strings")
 		var call string
 		switch g.n(3) {
@@ -431,6 +518,11 @@ var shapes = []shape{
 	}},
 	{check: "S1018", name: "slide", build: func(g *gen) (string, string) {
 		guard := "\tif off > len(xs) {\n\t\toff = len(xs)\n\t}\n\tn := len(xs) - off\n"
+		if includeKnown() && g.n(3) == 0 {
+			guard = "\tn := " + g.intE(1) + "\n" // recorded finding s1018-count-or-offset-out-of-range
+		} else if !includeKnown() {
+			excluded("s1018_count_or_offset_unguarded")
+		}
 		return "[]int", "\toff := (" + g.intE(1) + ") & 3\n" + guard + "\tfor i := 0; i < n; i++ {\n\t\txs[i] = xs[off+i]\n\t}\n\treturn xs\n"
 	}},
 	{check: "S1021", name: "decl-assign", build: func(g *gen) (string, string) {
@@ -450,7 +542,7 @@ var shapes = []shape{
 		recv := g.pick(tm+".Unix(int64("+g.intE(1)+"), 0)", tm+".Now().Add("+tm+".Hour * "+tm+".Duration(1+("+g.intE(1)+")&7))", "t0", "(t0)", "t0.Add("+tm+".Hour)")
 		return "bool", "\tt0 := " + tm + ".Unix(1, 0)\n\t_ = t0\n\treturn " + recv + ".Sub(" + tm + ".Now()) > 0\n"
 	}},
-	{check: "S1025", name: "sprintf-s", build: func(g *gen) (string, string) {
+	{check: "S1025", weight: 2, name: "sprintf-s", build: func(g *gen) (string, string) {
 		f := g.q("fmt")
 		var arg string
 		switch g.n(5) {
@@ -462,15 +554,30 @@ var shapes = []shape{
 			arg = g.bytesE()
 		default:
 			arg = "Strg{" + g.strE(1) + "}"
+			if includeKnown() && g.n(2) == 0 {
+				arg = "ES{" + g.strE(1) + "}" // recorded finding s1025-stringer-that-is-also-error
+			} else if !includeKnown() {
+				excluded("s1025_stringer_that_is_also_error")
+			}
 		}
 		call := f + `.Sprintf("%s", ` + arg + ")"
-		switch g.n(3) {
+		form := g.n(5)
+		if form >= 3 && !includeKnown() {
+			// recorded finding replacement-not-parenthesised-for-context: Sprintf("%s", a+b)[i:] becomes a+b[i:]
+			excluded("s1025_result_sliced_or_indexed")
+			form = 0
+		}
+		switch form {
 		case 0:
 			return "string", "\treturn " + call + "\n"
 		case 1:
 			return "string", "\treturn " + call + " + t\n"
-		default:
+		case 2:
 			return "int", "\treturn len(" + call + ")\n"
+		case 3:
+			return "string", "\treturn " + call + "[len(t):]\n"
+		default:
+			return "byte", "\treturn (" + call + " + \"x\")[0] + " + call + "[0]\n"
 		}
 	}},
 	{check: "S1028", name: "errors-new-sprintf", aliasing: true, build: func(g *gen) (string, string) {
@@ -478,25 +585,42 @@ var shapes = []shape{
 		args := g.pick(`"%d", `+g.intE(2), `"%s-%d", `+g.strE(1)+", "+g.intE(1), `"%v|%v", `+g.intE(1)+", "+g.boolE(1), `"plain"`)
 		return "error", "\treturn " + g.q("errors") + ".New(" + f + ".Sprintf(" + args + "))\n"
 	}},
-	{check: "S1030", name: "buffer-bytes", build: func(g *gen) (string, string) {
+	{check: "S1030", weight: 2, name: "buffer-bytes", build: func(g *gen) (string, string) {
 		pre := "\tvar buf " + g.q("bytes") + ".Buffer\n\tbuf.WriteString(" + g.strE(1) + ")\n\tpb := &buf\n\t_ = pb\n"
 		recv := g.pick("buf", "pb", "(&buf)", "(*pb)")
 		if g.n(2) == 0 {
 			return "string", pre + "\treturn string(" + recv + ".Bytes()) + t\n"
 		}
+		if !includeKnown() {
+			// recorded finding s1030-bytes-aliases-buffer: []byte(buf.String()) is a fresh non-nil slice, buf.Bytes() is not
+			excluded("s1030_bytes_of_string")
+			return "string", pre + "\treturn string(" + recv + ".Bytes())\n"
+		}
 		return "[]byte", pre + "\treturn []byte(" + recv + ".String())\n"
 	}},
 	{check: "S1033", name: "guarded-delete", build: func(g *gen) (string, string) {
+		if !includeKnown() {
+			// recorded finding s1033-key-evaluated-once: the guard's key expression is dropped
+			excluded("s1033_key_with_side_effects")
+			g.pure++
+			defer func() { g.pure-- }()
+		}
 		k := g.strE(1)
 		return "int", "\tif m == nil {\n\t\treturn -1\n\t}\n\tif _, ok := m[" + k + "]; ok {\n\t\tdelete(m, " + k + ")\n\t}\n\treturn len(m)\n"
 	}},
 	{check: "S1034", name: "type-switch", build: func(g *gen) (string, string) {
+		if includeKnown() && g.n(3) == 0 {
+			// recorded finding s1034-assignment-to-switched-variable
+			return "int", "\tswitch v.(type) {\n\tcase int:\n\t\tn := v.(int)\n\t\tv = \"s\"\n\t\treturn n + len(v.(string))\n\t}\n\treturn -1\n"
+		} else if !includeKnown() {
+			excluded("s1034_switched_variable_assigned")
+		}
 		return "int", "\tswitch v.(type) {\n\tcase int:\n\t\treturn v.(int) + " + g.intE(1) + "\n\tcase string:\n\t\treturn len(v.(string))\n\tcase nil:\n\t\treturn -2\n\t}\n\treturn -1\n"
 	}},
 	{check: "S1036", name: "map-guard", build: func(g *gen) (string, string) {
-		g.pure++
+		done := g.guarded()
 		k := g.strE(1)
-		g.pure--
+		done()
 		pre := "\tif m == nil {\n\t\treturn -1\n\t}\n"
 		switch g.n(3) {
 		case 0:
@@ -526,7 +650,7 @@ var shapes = []shape{
 			return "int", "\treturn len(" + call + ")\n"
 		}
 	}},
-	{check: "QF1001", name: "demorgan", build: func(g *gen) (string, string) {
+	{check: "QF1001", weight: 2, name: "demorgan", build: func(g *gen) (string, string) {
 		var inner string
 		switch g.n(4) {
 		case 0:
@@ -540,6 +664,11 @@ var shapes = []shape{
 		}
 		g.low = true
 		x := "!(" + inner + ")"
+		if includeKnown() && g.n(6) == 0 {
+			return "bool", "\treturn !" + x + "\n" // recorded finding qf1001-negation-under-unary-operator
+		} else if !includeKnown() {
+			excluded("qf1001_operand_of_unary_operator")
+		}
 		switch g.n(5) {
 		case 0:
 			return "bool", "\treturn " + x + "\n"
@@ -554,8 +683,7 @@ var shapes = []shape{
 		}
 	}},
 	{check: "QF1002", name: "tagless-switch", build: func(g *gen) (string, string) {
-		g.pure++
-		defer func() { g.pure-- }()
+		defer g.guarded()()
 		x := g.intE(1)
 		vals := []string{"1", "2", "3", "b", "len(s)"}
 		c1 := x + " == " + vals[g.n(2)]
@@ -569,15 +697,20 @@ var shapes = []shape{
 		return "int", "\tswitch " + init + "{\n\tcase " + c1 + ":\n\t\treturn 1\n\tcase " + c2 + ":\n\t\treturn 2\n\tdefault:\n\t\treturn 3\n\t}\n"
 	}},
 	{check: "QF1003", name: "if-else-chain", build: func(g *gen) (string, string) {
-		g.pure++
-		defer func() { g.pure-- }()
+		defer g.guarded()()
 		if g.n(3) == 0 {
 			x := g.strE(1)
 			return "int", "\tr := 0\n\tif " + x + " == \"a\" {\n\t\tr = 1\n\t} else if " + x + " == \"ab\" || " + x + " == t {\n\t\tr = 2\n\t} else {\n\t\tr = 3\n\t}\n\treturn r\n"
 		}
 		x := g.intE(1)
 		els := g.pick(" else {\n\t\tr = 3\n\t}", "")
-		return "int", "\tr := 0\n\tif " + x + " == 1 {\n\t\tr = 1\n\t} else if " + x + " == 2 || " + x + " == (b) {\n\t\tr = 2\n\t}" + els + "\n\treturn r\n"
+		two := "2"
+		if includeKnown() && g.n(4) == 0 {
+			two = "1" // recorded finding tagged-switch-duplicate-case
+		} else if !includeKnown() {
+			excluded("tagged_switch_duplicate_constant")
+		}
+		return "int", "\tr := 0\n\tif " + x + " == 1 {\n\t\tr = 1\n\t} else if " + x + " == " + two + " || " + x + " == (b) {\n\t\tr = 2\n\t}" + els + "\n\treturn r\n"
 	}},
 	{check: "QF1004", name: "replace-all", aliasing: true, build: func(g *gen) (string, string) {
 		switch g.n(3) {
@@ -589,15 +722,27 @@ var shapes = []shape{
 			return "[]byte", "\treturn " + g.q("bytes") + ".Replace(" + g.bytesE() + ", []byte(" + g.strE(1) + "), " + g.bytesE() + ", -1)\n"
 		}
 	}},
-	{check: "QF1005", name: "math-pow", build: func(g *gen) (string, string) {
-		g.pure++
+	{check: "QF1005", weight: 2, name: "math-pow", build: func(g *gen) (string, string) {
+		done := g.guarded()
 		x := g.fltE(2)
-		g.pure--
+		done()
 		call := g.q("math") + ".Pow(" + x + ", " + g.pick("2", "3", "2", "1", "0") + ")"
-		if g.n(2) == 0 {
-			return "float64", "\treturn " + call + "\n"
+		form := g.n(4)
+		if form >= 1 && !includeKnown() {
+			// recorded finding replacement-not-parenthesised-for-context: 2 / math.Pow(x, 2) becomes 2 / x * x
+			excluded("qf1005_call_is_operand")
+			form = 0
 		}
-		return "float64", "\treturn 1 - " + call + " / 2\n"
+		switch form {
+		case 0:
+			return "float64", "\treturn " + call + "\n"
+		case 1:
+			return "float64", "\treturn 1 - " + call + " / 2\n"
+		case 2:
+			return "float64", "\treturn 8 / " + call + "\n"
+		default:
+			return "float64", "\treturn fl - " + call + "\n"
+		}
 	}},
 	{check: "QF1006", name: "for-if-break", build: func(g *gen) (string, string) {
 		cond := "i > 3 || " + g.boolE(2)
@@ -611,7 +756,7 @@ var shapes = []shape{
 		}
 		return "int", "\ti, r := 0, 0\n\t" + label + "for {\n\t\tif " + cond + " {\n\t\t\tbreak\n\t\t}\n" + cont + "\t\ti++\n\t\tr += i\n\t}\n\treturn r\n"
 	}},
-	{check: "QF1007", name: "cond-assign", build: func(g *gen) (string, string) {
+	{check: "QF1007", weight: 2, name: "cond-assign", build: func(g *gen) (string, string) {
 		c := g.boolE(2)
 		if g.n(2) == 0 {
 			return "bool", "\tx := false\n\tif " + c + " {\n\t\tx = true\n\t}\n\treturn x\n"
@@ -639,7 +784,7 @@ var shapes = []shape{
 	{check: "QF1010", name: "print-bytes", build: func(g *gen) (string, string) {
 		return "string", "\treturn " + g.q("fmt") + ".Sprint(" + g.bytesE() + ", a)\n"
 	}},
-	{check: "QF1012", name: "write-sprintf", aliasing: true, build: func(g *gen) (string, string) {
+	{check: "QF1012", weight: 2, name: "write-sprintf", aliasing: true, build: func(g *gen) (string, string) {
 		f := g.q("fmt")
 		var fn, args string
 		switch g.n(4) {
@@ -653,8 +798,17 @@ var shapes = []shape{
 			fn, args = "Sprintln", "("+g.strE(1)+")"
 		}
 		call := f + "." + fn + args
-		sb := g.q("strings")
-		switch g.n(5) {
+		sb := ""
+		form := g.n(5)
+		if form == 4 && !includeKnown() {
+			// recorded finding qf1012-address-of-unaddressable-receiver
+			excluded("qf1012_receiver_not_addressable")
+			form = 3
+		}
+		if form != 2 && form != 4 {
+			sb = g.q("strings")
+		}
+		switch form {
 		case 0:
 			return "string", "\tvar sb " + sb + ".Builder\n\tsb.WriteString(" + call + ")\n\treturn sb.String()\n"
 		case 1:
@@ -668,6 +822,16 @@ var shapes = []shape{
 		}
 	}},
 }
+
+var shapeTable = sync.OnceValue(func() []*shape {
+	var out []*shape
+	for i := range shapes {
+		for k := 0; k < max(1, shapes[i].weight); k++ {
+			out = append(out, &shapes[i])
+		}
+	}
+	return out
+})
 
 // instance is one generated function.
 type instance struct {
@@ -686,12 +850,18 @@ func (in *instance) nontrivialHoles() bool { return in.Trace || in.Multi || in.L
 
 func buildInstance(t *rapid.T, idx int, sh *shape) *instance {
 	g := &gen{t: t, imports: map[string]string{}}
+	g.noRightNest = !includeKnown()
 	if sh.aliasing {
 		switch g.n(6) {
 		case 0:
 			g.alias = 1
 		case 1:
 			g.alias = 2
+			if !includeKnown() {
+				// recorded finding fix-names-shadowed-package: replacement text spells the package name
+				excluded("shadowed_package_name")
+				g.alias = 1
+			}
 		}
 	}
 	results, body := sh.build(g)
